@@ -2,3 +2,5 @@ pub mod c01;
 pub mod c02;
 pub mod c05;
 pub mod c10;
+pub mod c13;
+pub mod c17;
